@@ -2,6 +2,7 @@ mod actorops;
 mod c01;
 mod c02;
 mod c03;
+mod c04;
 mod c05;
 mod c06;
 mod c09;
@@ -32,6 +33,7 @@ fn main() -> anyhow::Result<()> {
         "C12" | "C14" => actorops::run(prop, seed, n, &out, thorough),
         "C08" => c01::run(seed, n, &out, thorough, "C08", "Check.C08"),
         "C03" => c03::run(seed, n, &out, thorough),
+        "C04" => c04::run(seed, n, &out, thorough),
         "C05" => c05::run(seed, n, &out, thorough),
         _ => anyhow::bail!("unknown property {prop}"),
     }
